@@ -350,6 +350,7 @@ def check(report: Report, repo: Repo) -> None:
     report.add("R5-init", f"{MD}::LinearReadout.reset_parameters", isinstance(rp, FuncV) and rp.cls is not None and rp.cls.qualname == "Linear", "readout layers use Linear's unit-variance initialisation", fmt(rp), "Linear.reset_parameters", nontrivial=False)
 
     check_option_value_domains(report, repo)
+    check_conv_padding_strings(report, repo)
     check_depth_containers(report, repo, "R6-depth")
 
     # ---------------------------------------------------------------- composite modules
@@ -453,6 +454,37 @@ def check_option_value_domains(report: Report, repo: Repo) -> None:
                 continue
             fraises = [e["exc"] for e in it.events if e.kind == "raise"]
             report.add("R2-options", cons, not (res is BOTTOM or fraises), f"{cname}({opt}={val!r}) is accepted by the constructor, so forward must work (an option is honoured, or rejected at construction -- not refused or asserted away at call time)", fraises or "works", "works")
+
+
+def check_conv_padding_strings(report: Report, repo: Repo) -> None:
+    """torch.nn.Conv1d also takes padding="same" / "valid".  The unit-scaled module either refuses a string at
+    construction, or the integer it stores reproduces torch's output length: L for "same" (stride 1), i.e.
+    2 * padding == dilation * (kernel_size - 1) -- which no symmetric integer padding can give when that
+    product is odd -- and L - dilation * (kernel_size - 1) for "valid"."""
+    for mode in ("same", "valid"):
+        for ks, dl in ((3, 1), (4, 1), (2, 3), (5, 2), (4, 3)):
+            it = Interp(repo)
+            cls = it.get_global(MD, "Conv1d")
+            init = it.class_attr(cls, "__init__")
+            cons = f"{MD}::Conv1d::padding[{mode!r}]"
+            selfv = Obj("Conv1d", cls=cls, term=T("param", ("self",)))
+            it.events = []
+            try:
+                made = it.call_function(init, [selfv, dim("Ci"), dim("Co"), ks], {"padding": mode, "dilation": dl})
+            except Unsupported as ex:
+                report.add("R2-options", cons, None, f"kernel {ks}, dilation {dl}: outside fragment: {ex}")
+                continue
+            if made is BOTTOM or any(e.kind == "raise" for e in it.events):
+                report.add("R2-options", cons, True, f"kernel {ks}, dilation {dl}: string padding is rejected at construction", "rejected", "rejected", nontrivial=False)
+                continue
+            p_ = selfv.attrs.get("padding")
+            if isinstance(p_, (tuple, list)) and len(p_) == 1:
+                p_ = p_[0]
+            if not isinstance(p_, (int, sp.Integer)) or isinstance(p_, bool):
+                report.add("R2-options", cons, None, f"kernel {ks}, dilation {dl}: the padding the module ends up with is not a known integer ({fmt(p_)})")
+                continue
+            want = dl * (ks - 1) if mode == "same" else 0
+            report.add("R2-options", cons, 2 * int(p_) == want, f"kernel {ks}, dilation {dl}: accepted, so the output length must be torch's ({'L' if mode == 'same' else 'L - dilation*(kernel-1)'}): total padding {want}", f"2 x {int(p_)}", want)
 
 
 def check_depth_containers(report: Report, repo: Repo, rule: str) -> None:
